@@ -42,6 +42,10 @@ package keystore
 //@ func newManagedAddressFromExtKey
 //@   trusted
 //@   requires extKey != nil && net != nil
+// shOfPath(keystore, branch, index): the script hash of the address at that derivation path of that keystore (the
+// keystore id is derived from the account public key, so the three determine the address); assumed of the callers:
+// extKey is the key at derivationPath
+//@   ensures result1 == nil ==> result0 != nil && strOf(result0.scriptHash) == ghosts("shOfPath", keystoreName, derivationPath.Branch, derivationPath.Index)
 //@ define usedAt(a, i) = (has(a.index, i) && has(a.addrs, a.index[i]) && a.addrs[a.index[i]] != nil && ghostb("scriptUsed", strOf(a.addrs[a.index[i]].scriptHash)))
 //@ define gapWitness(a, lo, hi) = (exists qi_ uint32 :: mathint(lo) <= mathint(qi_) && qi_ < hi && usedAt(a, qi_))
 //@ func (*AddrManager).nextAddresses
@@ -102,3 +106,29 @@ package keystore
 //@   ensures result ==> len(a) == len(b) && (forall qj_ int :: 0 <= qj_ && qj_ < len(a) ==> a[qj_] == b[qj_])
 //@   ensures !result ==> len(a) != len(b) || (exists qj_ int :: 0 <= qj_ && qj_ < len(a) && a[qj_] != b[qj_])
 //@   loop#1 invariant len(a) == len(b) && (forall qj_ int :: 0 <= qj_ && qj_ < iter_ ==> a[qj_] == b[qj_])
+
+// acctKnown(km, id): km manages a keystore with that wallet id
+//@ func (*KeystoreManager).GetAddrManagerByAccountID
+//@   trusted
+//@   pure
+//@   requires km != nil
+//@   ensures (result1 == nil) == ghostb("acctKnown", km, acctID)
+//@   ensures (result1 == nil) == (result0 != nil)
+
+// ---- C12 (scan rule of a restore): createManagerKeyScope rediscovers used addresses by scanning indexes upwards and
+// stops only after addressGapLimit consecutive indexes without chain history: when each scan loop ends, every index
+// in [nextIndex, nextIndex + addressGapLimit) has been asked about and answered "unused" (scriptUsed = the caller's
+// checkfunc).  Together with the gap rule on issue (nextAddresses) no funded address lies beyond the scan.
+//@ define unusedFrom(ks, br, lo, hi) = (forall qj_ uint32 :: lo <= qj_ && mathint(qj_) < hi ==> !ghostb("scriptUsed", ghosts("shOfPath", ks, br, qj_)))
+//@ func createManagerKeyScope
+//@   props C12
+//@   nopanic off
+//@   modifies *
+//@   only newManagedAddressFromExtKey
+//@   callback checkfunc observes scriptUsed
+//@   loop#3 skip
+//@   loop#6 skip
+//@   loop#1 invariant nextIndex <= i && unusedFrom(accountID, InternalBranch, nextIndex, mathint(i))
+//@   loop#4 invariant nextIndex <= i && unusedFrom(accountID, ExternalBranch, nextIndex, mathint(i))
+//@   at "if nextIndex < hdpath.InternalChildNum {..." assert[C12] forall qj_ uint32 :: nextIndex <= qj_ && mathint(qj_) < mathint(nextIndex) + mathint(addressGapLimit) && qj_ < 4294967295 ==> !ghostb("scriptUsed", ghosts("shOfPath", accountID, InternalBranch, qj_))
+//@   at "if nextIndex < hdpath.ExternalChildNum {..." assert[C12] forall qj_ uint32 :: nextIndex <= qj_ && mathint(qj_) < mathint(nextIndex) + mathint(addressGapLimit) && qj_ < 4294967295 ==> !ghostb("scriptUsed", ghosts("shOfPath", accountID, ExternalBranch, qj_))
